@@ -170,6 +170,15 @@ func (t *vcStringType) Equals(o interface{}, g px.Guard) bool {
 	return false
 }
 
+// ToKey includes the value: a String type inferred from a value prints as plain String (Parameters is empty) but
+// String['a'], String['b'] and String are three different types
+func (t *vcStringType) ToKey(b *bytes.Buffer) {
+	b.WriteByte(1)
+	b.WriteByte(HkType)
+	appendElementKey(b, stringValue(t.Name()))
+	appendElementKey(b, stringValue(t.value))
+}
+
 func (t *stringType) Get(key string) (value px.Value, ok bool) {
 	switch key {
 	case `size_type_or_value`:
